@@ -304,6 +304,36 @@ def corridor(n=60, reverse=False, reward=2):
     return Game("corridor(%d,%s)" % (n, "rev" if reverse else "fwd"), [PR] * (n + 3), tl, [F], rw)
 
 
+def huge_reward(owner=P1):
+    """a player state carrying a reward so large that adding a small successor value to it is absorbed in doubles"""
+    return Game("huge_reward(%s)" % owner[-1], [owner, PR, PR, PR], [[("small", 1), ("big", 2)], [(1, 3)], [(1, 3)], [(1, 3)]], [3],
+                [1e17, 5, 7, 0])
+
+
+def zero_branch():
+    """a chance state with an explicit probability-0 branch that is the only way into a chance state"""
+    return Game("zero_branch", [P1, PR, PR, PR, PR, PR],
+                [[("a", 1), ("b", 3)], [(0.0, 2), (1.0, 3)], [(1, 4)], [(0.5, 4), (0.5, 5)], [(1, 4)], [(1, 5)]], [4],
+                [0, 1, 5, 2, 0, 0])
+
+
+def decimals2():
+    """another decimal distribution whose float sum is not exactly 1 under naive summation (0.01 + 0.29 + 0.7)"""
+    return Game("decimals2", [PR, PR, PR, PR], [[(0.01, 1), (0.29, 2), (0.7, 3)], [(1, 2)], [(1, 2)], [(1, 3)]], [2], [1, 2, 0, 0])
+
+
+def tiny_vs_dead():
+    """Player 1 between a successor of tiny positive value (1e-7) and a rewarded dead branch"""
+    return Game("tiny_vs_dead", [PR, P1, PR, PR, PR, PR],
+                [[(0.5, 1), (0.5, 4)], [("a", 2), ("b", 3)], [(1e-7, 4), (1 - 1e-7, 5)], [(1, 5)], [(1, 4)], [(1, 5)]], [4],
+                [1, 1, 2, 100, 0, 0])
+
+
+def cancel_mass():
+    """the dead successor carries almost all the mass: 1 - lost cancels, the surviving mass does not"""
+    return Game("cancel_mass", [PR, PR, PR, PR], [[(2e-16, 1), (1 - 2e-16, 3)], [(1, 2)], [(1, 2)], [(1, 3)]], [2], [10, 100, 0, 0])
+
+
 def slow_chain():
     """KF-1: self-loop of probability 1-1e-7; value iteration stops far from the value"""
     return Game("slow_chain", [PR, PR], [[(1 - 1e-7, 0), (1e-7, 1)], [(1, 1)]], [1], [0, 0])
